@@ -251,7 +251,7 @@ def manifest(g):
             if e.get('pool'):
                 L.append("  pool = %s\n" % e['pool'])
             if e.get('rsp') is not None:
-                L.append("  rsptag = %s\n  rspf = %s.rsp\n" % (e['rsp'], key(e)))
+                L.append("  rsptag = %s\n  rspf = %s\n" % (e['rsp'], models.rspfile_path(e)))
             if e.get('dd'):
                 L.append("  dyndep = %s\n" % e['dd'])
     if g.get('defaults'):
@@ -331,7 +331,7 @@ def real_manifest(g, vtool):
             if e.get('pool'):
                 L.append("  pool = %s\n" % e['pool'])
             if e.get('rsp') is not None:
-                L.append("  rsptag = %s\n  rspf = %s.rsp\n" % (e['rsp'], key(e)))
+                L.append("  rsptag = %s\n  rspf = %s\n" % (e['rsp'], models.rspfile_path(e)))
             if e.get('dd'):
                 L.append("  dyndep = %s\n" % e['dd'])
     if g.get('defaults'):
